@@ -79,6 +79,10 @@ def run(sc, trace=None):
             w.note_scheduler_assignments(asg)
             rd.done(w, sus, asg)
             pm.check(rd)
+            if sc.get("inject_suspend_at") == t:
+                # an outside actor (not the scheduler under test) suspends every container that is at a boundary
+                from eudoxia.executor.assignment import Suspend as _Suspend
+                sus = list(sus) + [_Suspend(c.container_id, p.pool_id) for p in w.executor.pools for c in p.active_containers if c.can_suspend_container()]
             w.boundary_checks()
             n_before = len(w.mm)
             results = w.exec_phase(sus, asg)
@@ -93,7 +97,7 @@ def run(sc, trace=None):
                 e = w.exception
                 # signature by what was wrong with the decision (the reference executor's reason), not by where or
                 # with which words the implementation happened to refuse it
-                w.flag({"C08"}, "executor-raised", f"tick {t}: {type(e[2]).__name__}: {e[2]}", ("model-reject:" + w.last_reject) if w.last_reject else e[3])
+                w.flag({"C08"}, "executor-raised", f"tick {t}: {type(e[2]).__name__}: {e[2]}", ("model-reject:" + w.reject_reason()) if w.reject_reason() else e[3])
                 break
             for m in w.mm[n_before:]:
                 if m.kind == "inadmissible-command-executed":
@@ -117,7 +121,13 @@ SHAPES = {
     "join": [[], [], [0, 1]],
     "diamond": [[], [0], [0], [1, 2]],
     "chain4": [[], [0], [1], [2]],
+    "roots4": [[], [], [], []],
 }
+BASE_SHAPES = tuple(SHAPES)
+# two roots, a child of ONE of them: the other root can fail in the very tick the child becomes ready
+SHAPES["vee"] = [[], [], [1]]
+SHAPES["vee0"] = [[], [], [0]]
+SHAPES["vee3"] = [[], [], [], [2]]
 
 
 def op_profile(name, tps, small=0.5, over=3.0, huge=1e6, over2=6.0):
@@ -179,9 +189,14 @@ def horizon_of(combo, tps, extra=6):
 
 def build(algo, cfg, combo, tps, **kw):
     pools, cpus, ram, multi, oc = cfg
+    kw = dict(kw)
+    inj = kw.pop("inject_suspend_at", None) if "inject_suspend_at" in kw else None
     pipes = [pipeline(pr, ar, sh, pf, tps, **kw) for pr, ar, sh, pf in combo]
-    return dict(name=f"{algo}-p{pools}c{cpus}r{ram}m{int(multi)}t{tps}", scheduler=algo, tps=tps, pools=pools, cpus=cpus, ram=ram,
-                overcommit=oc, multi=multi, horizon=horizon_of(combo, tps), pipelines=pipes)
+    sc = dict(name=f"{algo}-p{pools}c{cpus}r{ram}m{int(multi)}t{tps}", scheduler=algo, tps=tps, pools=pools, cpus=cpus, ram=ram,
+              overcommit=oc, multi=multi, horizon=horizon_of(combo, tps) + (6 if inj is not None else 0), pipelines=pipes)
+    if inj is not None:
+        sc["inject_suspend_at"] = inj
+    return sc
 
 
 def space(kind, tier, seed=0):
@@ -201,7 +216,7 @@ def space(kind, tier, seed=0):
                 "priority": [(1, 1, 25, True, False), (1, 10, 25, True, False), (1, 10, 25, False, False), (2, 1, 40, True, False)],
                 "priority-pool": [(2, 1, 25, True, False), (2, 10, 25, True, False)]}[algo]
         for tps in ((1,) if q else (1, 2)):
-            shapes = list(SHAPES)
+            shapes = list(BASE_SHAPES)
             profsets = [("s1",), ("s2", "s1"), ("s1", "over"), ("over", "s1")]
             wl = workloads(tps, (("B", "I"), shapes, profsets, (0,)),
                            (("B",), shapes, profsets, (0,)) if q else (("B", "I"), shapes, profsets, (0, 1)), None)
@@ -230,10 +245,87 @@ def space(kind, tier, seed=0):
                             out.append((algo, cfg, ((pr, 0, shape, pf),), tps, kw))
                             out.append((algo, cfg, ((pr, 0, shape, pf), ("I" if pr != "I" else "B", 1, "single", ("s3",))), tps, kw))
         return out
+    if kind == "preempt:priority":
+        # several batch containers reach their boundary together while several queries arrive: victim counting
+        for tps in (1,):
+            for cfg in ((1, 3, 25, True, False), (1, 4, 25, True, False), (2, 2, 25, True, False)):
+                for nb in (2, 3):
+                    for bprof in (("s1", "s1"), ("s1", "s2"), ("s2", "s1")):
+                        for nq in (2, 3):
+                            for qarr in (1, 2):
+                                for qprof in (("s1",), ("s3",)):
+                                    combo = tuple(("B", 0, "chain2", bprof) for _ in range(nb)) + tuple(("Q", qarr, "single", qprof) for _ in range(nq))
+                                    out.append(("priority", cfg, combo, tps, dict(over=3.5)))
+                                    combo2 = tuple(("I" if i % 2 else "B", 0, "chain2", bprof) for i in range(nb)) + tuple(("Q", qarr, "single", qprof) for _ in range(nq))
+                                    out.append(("priority", cfg, combo2, tps, dict(over=3.5)))
+        return out
+    if kind == "inject:priority-pool":
+        # an outside actor suspends every suspendable container at one tick (priority-pool itself never suspends):
+        # resumed work of both pool classes comes back in the same round
+        for cfg in ((2, 10, 400, True, False), (2, 10, 800, True, False)):
+            for pa in ("Q", "I"):
+                for prof in (("s1", "s2"), ("s1", "s1", "s1"), ("s2", "s1")):
+                    for inj in (1, 2, 3):
+                        shape = "chain3" if len(prof) == 3 else "chain2"
+                        for extra in ((), (("I", 0, "chain2", ("s1", "s3")),)):
+                            combo = ((pa, 0, shape, prof), ("B", 0, shape, prof)) + extra
+                            out.append(("priority-pool", cfg, combo, 1, dict(over=45.0, inject_suspend_at=inj)))
+        return out
+    if kind.startswith("ratio:"):
+        # pool shapes in which the CPU share and the RAM share of a request differ (fewer GB than CPUs; 17-19 CPUs, where
+        # a tenth rounds down to 1/17..1/19): repeated OOM failures double both, the half-of-the-pool rule bites on ONE of them
+        algo = kind[6:]
+        p = 2 if algo == "priority-pool" else 1
+        for cfg in ((p, 20, 8, True, False), (p, 18, 100, True, False), (p, 19, 60, True, False), (p, 17, 100, False, False), (p, 40, 12, True, False)):
+            j = max(1, int(cfg[2] / 10))
+            kw = dict(over=j + 0.5, over2=2 * j + 0.5)
+            for pr in ("Q", "I", "B"):
+                for shape, pfs in (("single", (("over",), ("over2",), ("huge",))), ("chain2", (("s1", "over2"), ("s1", "huge"), ("over", "over2"), ("huge", "s1")))):
+                    for pf in pfs:
+                        out.append((algo, cfg, ((pr, 0, shape, pf),), 1, kw))
+                        out.append((algo, cfg, ((pr, 0, shape, pf), ("B" if pr != "B" else "I", 1, "single", ("huge",))), 1, kw))
+        return out
+    if kind.startswith("sibling:"):
+        # single-operator containers: a root is OOM-killed in the tick in which its sibling completes and unblocks a child, so
+        # one round sees a failed operator (to be retried with doubled size) next to a never-run ready one of the same
+        # pipeline; fillers of lower priority keep the pool tight and arrive afterwards
+        algo = kind[8:]
+        p = 2 if algo == "priority-pool" else 1
+        import itertools as _it
+        for cfg in ((p, 3, 25, False, False), (p, 4, 25, False, False), (p, 10, 100, False, False), (p, 3, 25, True, False)):
+            j = max(1, int(cfg[2] / 10))
+            kw = dict(over=j + 0.5, over2=2 * j + 0.5)
+            for shape in ("vee", "vee0", "vee3"):
+                n = len(SHAPES[shape])
+                for pf in _it.product(("s1", "s2", "over"), repeat=n):
+                    if "over" not in pf[:n - 1]:
+                        continue
+                    for pr in ("I", "B") if algo == "priority-pool" else ("Q", "I"):
+                        lo = "B" if pr != "B" else "I"
+                        out.append((algo, cfg, ((pr, 0, shape, pf),), 1, kw))
+                        for nf in (1, 2, 3):
+                            for farr in (1, 2):
+                                out.append((algo, cfg, ((pr, 0, shape, pf),) + tuple((lo if algo != "priority-pool" else pr, farr, "single", ("s3",)) for _ in range(nf)), 1, kw))
+        return out
+    if kind == "wide:overbook":
+        # a wide pipeline is abandoned while one of its containers is still running; other pipelines wait for CPUs
+        import itertools as _it
+        for cfg in ((1, 4, 8, True, True), (2, 2, 8, True, True), (1, 3, 8, True, True)):
+            for straggler in ("s1", "s2", "s3"):
+                for pos in range(4):
+                    pf = ["huge"] * 4
+                    pf[pos] = straggler
+                    for nq in (3, 4):
+                        for qprof in (("s3",), ("s2",)):
+                            for qarr in (0, 1):
+                                combo = (("B", 0, "roots4", tuple(pf)),) + tuple(("B", qarr, "single", qprof) for _ in range(nq))
+                                out.append(("overbook", cfg, combo, 1, {}))
+        return out
     if kind.startswith("busy:"):
         # a busy pool: 4-5 single-operator pipelines of ONE class (long fillers, OOM->retry candidates, short ones)
         algo = kind[5:]
-        cfgs = [(2, 5, 25, True, False), (2, 3, 25, True, False)] if algo == "priority-pool" else [(1, 5, 25, True, False), (1, 3, 25, True, False), (1, 5, 25, False, False)]
+        cfgs = [(2, 5, 25, True, False), (2, 3, 25, True, False)] if algo == "priority-pool" else [(1, 5, 25, True, False), (1, 3, 25, True, False), (1, 5, 25, False, False),
+                                                                                                   (1, 20, 5, True, False)]   # more CPUs than GB: RAM runs out first
         for tps in (1,):
             for pr in (("I",), ("B",)) if not q else (("I",),):
                 one = [(pr[0], ar, "single", pf) for ar in (0, 1, 2) for pf in (("s3",), ("over",), ("s1",))]
@@ -253,7 +345,7 @@ def space(kind, tier, seed=0):
         for tps in ((1, 2) if q else (1, 2, 10)):
             profs1 = [("z",), ("s1", "z"), ("z", "z", "s1"), ("grow",), ("s1", "over"), ("huge",)]
             profs2 = [("z",), ("s1", "z"), ("grow",), ("huge",)]
-            wl = workloads(tps, (prios, list(SHAPES), profs1, (0, 1)), (prios, ("single", "chain2", "diamond"), profs2, (0, 1)), None)
+            wl = workloads(tps, (prios, list(BASE_SHAPES), profs1, (0, 1)), (prios, ("single", "chain2", "diamond"), profs2, (0, 1)), None)
             for cfg in cfgs:
                 for combo in wl:
                     out.append((algo, cfg, combo, tps, dict(over=0.75, small=0.5)))
@@ -262,7 +354,7 @@ def space(kind, tier, seed=0):
         cfgs = [(p, c, r, m, False) for p in ((1, 2) if q else (1, 2, 3)) for c in ((2,) if q else (1, 2)) for r in (4, 8) for m in (True, False)]
         for tps in ((1,) if q else (1, 2)):
             profsets = [("s1",), ("s2", "s1"), ("s1", "over"), ("huge",)]
-            wl = workloads(tps, (("B",), list(SHAPES), profsets, (0,)),
+            wl = workloads(tps, (("B",), list(BASE_SHAPES), profsets, (0,)),
                            (("B", "Q"), ("single", "chain2", "fork", "join", "diamond"), profsets, (0, 1, 3)) if not q else
                            (("B",), ("single", "chain2", "fork", "join"), profsets, (0, 1, 3)),
                            (("B",), ("single", "chain2", "join"), (("s1",), ("s1", "over")), (0, 1)))
@@ -272,7 +364,7 @@ def space(kind, tier, seed=0):
     elif kind == "starter":
         cfgs = [(p, 2, r, m, False) for p in (1, 2) for r in (4, 8) for m in (True, False)]
         profsets = [("s1",), ("s2", "s1"), ("s1", "over"), ("huge",)]
-        wl = workloads(1, (("B",), list(SHAPES), profsets, (0,)),
+        wl = workloads(1, (("B",), list(BASE_SHAPES), profsets, (0,)),
                        (("B",), ("single", "chain2", "fork", "join"), profsets, (0, 1, 3)), None)
         for cfg in cfgs:
             for combo in wl:
@@ -281,7 +373,7 @@ def space(kind, tier, seed=0):
         cfgs = [(p, c, r, m, True) for p in (1, 2) for c in (1, 2, 3) for r in (4, 8) for m in ((True,) if q else (True, False))]
         for tps in ((1,) if q else (1, 2)):
             profsets = [("s1",), ("s2", "s1"), ("m3",), ("s1", "m3"), ("huge",)]
-            wl = workloads(tps, (("B",), list(SHAPES), profsets, (0,)),
+            wl = workloads(tps, (("B",), list(BASE_SHAPES), profsets, (0,)),
                            (("B",), ("single", "chain2", "fork", "join"), profsets, (0, 1, 3) if not q else (0, 1)),
                            (("B",), ("single", "chain2"), (("m3",), ("s1", "m3"), ("huge",)), (0, 1)),
                            None if q else (("B",), ("single",), (("m3",), ("s2",)), (0, 1)))
@@ -310,7 +402,7 @@ def space(kind, tier, seed=0):
                 per2 = (pr, ("single", "chain2", "chain3", "fork"), (("s1",), ("s2", "s1"), ("s1", "over")), (0, 1, 2, 4))
                 per3 = (pr, ("single", "chain2"), (("s1",), ("s2",), ("over",)), (0, 1, 2))
                 per4 = (pr, ("single", "chain2"), (("s1",),), (0, 1))
-            wl = workloads(tps, (pr, list(SHAPES), (("s1",), ("s2", "s1"), ("s1", "over"), ("huge",)), (0,)), per2, per3, per4)
+            wl = workloads(tps, (pr, list(BASE_SHAPES), (("s1",), ("s2", "s1"), ("s1", "over"), ("huge",)), (0,)), per2, per3, per4)
             for cfg in cfgs:
                 # 'over' exceeds the first allocation (a tenth of the pool, at least 1 GB) and fits the doubled one
                 over = max(1, int(cfg[2] / 10)) + 0.5
